@@ -175,9 +175,9 @@ def corpus():
 
 def cases(rng, tier):
     quick = tier == "quick"
-    for i in range(260 if quick else 2500):
+    for i in range(260 if quick else 1000):
         yield _gen(rng, "merge", 0.0 if i % 12 else 0.12)
-    for i in range(700 if quick else 6000):
+    for i in range(700 if quick else 5000):
         yield _gen(rng, "render", 0.0 if i % 6 else 0.15)
 
 
